@@ -3,7 +3,7 @@ from . import core
 from .common import diff_streams, parse_kv
 from .deciders import GOALS, program_stream, judge_refutations
 
-LEVEL = "exploration"
+LEVEL = "proof"
 OPS = {"halt": "cant_halt", "blank": "cant_blank", "spin_out": "cant_spin_out"}
 
 
